@@ -953,12 +953,117 @@ fn run_history(idx: usize, rng: &mut Rng, stats: &mut Stats) {
     stats.failures += failures;
 }
 
+// ---------------------------------------------------------------------------------------------
+// neighbours: other interpolators on the same thread, over the same (refilled) user buffers
+
+/// answers of a 1-D interpolator over the given axis / data views: every query through `interp_scalar` one by one, then the
+/// whole batch through `interp_array`; bit patterns, `None` for an error, `u64::MAX - 1` marks a panic
+fn answers_1d(x: ndarray::ArrayView1<'_, f64>, y: ndarray::ArrayView1<'_, f64>, spline: bool, qs: &[f64]) -> Vec<Option<u64>> {
+    let run = || -> Vec<Option<u64>> {
+        let mut out = Vec::new();
+        macro_rules! go {
+            ($it:expr) => {{
+                let it = $it;
+                for &q in qs {
+                    out.push(it.interp_scalar(q).ok().map(f64::to_bits));
+                }
+                match it.interp_array(&Array1::from(qs.to_vec())) {
+                    Ok(a) => out.extend(a.iter().map(|v| Some(v.to_bits()))),
+                    Err(_) => out.push(None),
+                }
+            }};
+        }
+        if spline {
+            go!(Interp1DBuilder::new(y)
+                .x(x)
+                .strategy(CubicSpline::new().boundary(BoundaryCondition::Natural))
+                .build()
+                .expect("valid inputs"))
+        } else {
+            go!(Interp1DBuilder::new(y).x(x).strategy(Linear::new()).build().expect("valid inputs"))
+        }
+        out
+    };
+    catch_unwind(AssertUnwindSafe(run)).unwrap_or_else(|_| vec![Some(u64::MAX - 1)])
+}
+
+/// D: an interpolator's answers do not depend on which other interpolators the thread has used before — in particular not on
+/// one that was built over views of the *same user buffers* (same address, same length) holding other contents at the time.
+fn run_neighbours(idx: usize, rng: &mut Rng, stats: &mut Stats) {
+    let n = rng.range(3, 9);
+    let spline = rng.chance(0.5);
+    // A: exactly evenly spaced; B: same first / last value, uneven inside
+    let x0 = rng.range(0, 8) as f64 - 4.0;
+    let h = [0.5, 1.0, 2.0, 0.25][rng.below(4)];
+    let xa: Vec<f64> = (0..n).map(|i| x0 + h * i as f64).collect();
+    let mut xb = xa.clone();
+    for i in 1..n - 1 {
+        let lo = xb[i - 1];
+        let hi = xa[i + 1].min(xa[n - 1]);
+        xb[i] = lo + (hi - lo) * rng.uniform(0.1, 0.9);
+    }
+    let ya: Vec<f64> = (0..n).map(|_| rng.uniform(-4.0, 4.0)).collect();
+    let yb: Vec<f64> = (0..n).map(|_| rng.uniform(-40.0, 40.0)).collect();
+    let queries = |xs: &[f64], rng: &mut Rng| -> Vec<f64> {
+        let mut qs: Vec<f64> = xs.to_vec();
+        for w in xs.windows(2) {
+            qs.push(w[0] + (w[1] - w[0]) * rng.uniform(0.05, 0.95));
+        }
+        qs
+    };
+    let qa = queries(&xa, rng);
+    let qb = queries(&xb, rng);
+    // reference: a thread that has never seen another interpolator, owned copies of the inputs
+    let (xb2, yb2, qb2) = (xb.clone(), yb.clone(), qb.clone());
+    let expect_b = std::thread::spawn(move || {
+        answers_1d(Array1::from(xb2).view(), Array1::from(yb2).view(), spline, &qb2)
+    })
+    .join()
+    .expect("reference thread");
+    let (xa2, ya2, qa2) = (xa.clone(), ya.clone(), qa.clone());
+    let expect_a = std::thread::spawn(move || {
+        answers_1d(Array1::from(xa2).view(), Array1::from(ya2).view(), spline, &qa2)
+    })
+    .join()
+    .expect("reference thread");
+
+    // this thread: one pair of user buffers, first holding A, then refilled with B
+    let mut xbuf = xa.clone();
+    let mut ybuf = ya.clone();
+    let got_a = answers_1d(ndarray::ArrayView1::from(&xbuf[..]), ndarray::ArrayView1::from(&ybuf[..]), spline, &qa);
+    xbuf.copy_from_slice(&xb);
+    ybuf.copy_from_slice(&yb);
+    let got_b = answers_1d(ndarray::ArrayView1::from(&xbuf[..]), ndarray::ArrayView1::from(&ybuf[..]), spline, &qb);
+    // and once more the other way round (B's verdicts must not stick to A either)
+    xbuf.copy_from_slice(&xa);
+    ybuf.copy_from_slice(&ya);
+    let got_a2 = answers_1d(ndarray::ArrayView1::from(&xbuf[..]), ndarray::ArrayView1::from(&ybuf[..]), spline, &qa);
+    stats.executed += got_a.len() + got_b.len() + got_a2.len();
+    let mut failures = 0;
+    for (name, got, want) in [("A", &got_a, &expect_a), ("B-after-A-in-the-same-buffers", &got_b, &expect_b), ("A-after-B", &got_a2, &expect_a)] {
+        if got != want {
+            failures += 1;
+            let k = got.iter().zip(want.iter()).position(|(g, w)| g != w).unwrap_or(0);
+            println!(
+                "FAIL neighbours={idx} replay=D op={name}#{k} x_first={xa:?} x_second={xb:?} expected={:?} got={:?}",
+                want.get(k),
+                got.get(k)
+            );
+        }
+    }
+    println!("hist kind=neighbours-{} storage=views-of-one-user-buffer ops={} threads=1 ok={}", if spline { "spline" } else { "linear" }, got_a.len() + got_b.len() + got_a2.len(), u8::from(failures == 0));
+    stats.failures += failures;
+}
+
 pub fn main(seed: u64, n: usize) {
     static_assertions();
     let mut rng = Rng(seed);
     let mut stats = Stats::default();
     for idx in 0..n {
         run_history(idx, &mut rng, &mut stats);
+    }
+    for idx in 0..n.max(8) {
+        run_neighbours(idx, &mut rng, &mut stats);
     }
     println!(
         "STATS reference_ok={} reference_err={} reference_panic={} scalar_ops={} rejected_buffer_ops={}",
